@@ -40,6 +40,10 @@ pids=()
 # the property's own corpus, then the behaviour-preserving corpus shared by all properties (expect: silent)
 for d in "$DIR"/*.diff "$VERIF"/selftest/benign/*.diff; do
   [ -f "$d" ] || continue
+  # a benign variant tagged "# checks: Cxx Cyy" is the regression test of those checks (it once raised a
+  # false alarm there); it is replayed for them only. Untagged variants are replayed for every property.
+  # (tools/benign_sweep.sh replays every variant under all twenty checks.)
+  if tags="$(grep -m1 '^# checks:' "$d")"; then case " ${tags#\# checks:} " in *" $ID "*) ;; *) continue ;; esac; fi
   n=$((n+1))
   run_one "$d" & pids+=($!)
   if [ ${#pids[@]} -ge 6 ]; then wait "${pids[0]}"; r=$?; [ $r -eq 1 ] && fail=$((fail+1)); [ $r -eq 3 ] && skipped=$((skipped+1)); pids=("${pids[@]:1}"); fi
